@@ -21,7 +21,12 @@ type gty string // "u64" "u32" "i32" "i64" "bool" "f64" "f32" "" (untyped consta
 
 func leanTy(t gty) string {
 	switch t {
-	case "u64", "f64":
+	case "f64":
+		if fxMode {
+			return "Go.FX"
+		}
+		return "UInt64"
+	case "u64":
 		return "UInt64"
 	case "u32", "f32":
 		return "UInt32"
@@ -72,6 +77,14 @@ type trans struct {
 	sigs   map[string]sig    // callable functions (translated ones and the hard-wired table)
 	fields map[string]gty    // receiver fields (jsf64ctx)
 	recv   string
+	// stream functions (translate_prog.go)
+	stream  string                   // name of the bitStream parameter
+	psigs   map[string]psig          // translated stream functions
+	hoisted map[*ast.CallExpr]string // stream calls already bound to a name
+	tmpN    int
+	loopN   int
+	aux     []string // auxiliary definitions (loops) of the function being translated
+	self    string
 }
 
 var mathConsts = map[string]string{
@@ -122,6 +135,9 @@ func (t *trans) constVal(e ast.Expr) (*big.Int, bool) {
 }
 
 func lit(v *big.Int, ty gty) string {
+	if ty == "f64" && fxMode {
+		return fmt.Sprintf("(Go.FX.lit %q)", v.String())
+	}
 	if v.Sign() < 0 {
 		return fmt.Sprintf("(-(%s : %s))", new(big.Int).Neg(v).String(), leanTy(ty))
 	}
@@ -146,6 +162,10 @@ func (t *trans) expr(e ast.Expr, want gty) (string, gty) {
 	switch x := e.(type) {
 	case *ast.ParenExpr:
 		return t.expr(x.X, want)
+	case *ast.BasicLit:
+		if x.Kind == token.FLOAT && fxMode {
+			return fmt.Sprintf("(Go.FX.lit %q)", x.Value), "f64"
+		}
 	case *ast.Ident:
 		if x.Name == "true" || x.Name == "false" {
 			return x.Name, "bool"
@@ -166,6 +186,9 @@ func (t *trans) expr(e ast.Expr, want gty) (string, gty) {
 		s, ty := t.expr(x.X, want)
 		switch x.Op {
 		case token.SUB:
+			if ty == "f64" && fxMode {
+				return "(Go.FX.neg " + s + ")", ty
+			}
 			return "(-" + s + ")", ty
 		case token.XOR:
 			return "(~~~" + s + ")", ty
@@ -216,6 +239,27 @@ func (t *trans) binary(x *ast.BinaryExpr, want gty) (string, gty) {
 	}
 	a, _ := t.expr(x.X, ty)
 	b, _ := t.expr(x.Y, ty)
+	if ty == "f64" && fxMode {
+		switch x.Op {
+		case token.ADD:
+			return "(Go.FX.add " + a + " " + b + ")", ty
+		case token.SUB:
+			return "(Go.FX.sub " + a + " " + b + ")", ty
+		case token.MUL:
+			return "(Go.FX.mul " + a + " " + b + ")", ty
+		case token.QUO:
+			return "(Go.FX.div " + a + " " + b + ")", ty
+		case token.LEQ:
+			return "(fe.le " + a + " " + b + ")", "bool"
+		case token.LSS:
+			return "(fe.lt " + a + " " + b + ")", "bool"
+		case token.GEQ:
+			return "(fe.le " + b + " " + a + ")", "bool"
+		case token.GTR:
+			return "(fe.lt " + b + " " + a + ")", "bool"
+		}
+		panic("translate: unsupported float operator " + x.Op.String())
+	}
 	switch x.Op {
 	case token.ADD, token.SUB, token.MUL:
 		return "(" + a + " " + x.Op.String() + " " + b + ")", ty
@@ -264,7 +308,36 @@ func (t *trans) convert(s string, from, to gty) string {
 }
 
 func (t *trans) call(c *ast.CallExpr, want gty) (string, gty) {
+	if n, ok := t.hoisted[c]; ok {
+		return n, t.env[n]
+	}
 	fn := exprText(t.p.fset, c.Fun)
+	if fxMode {
+		switch fn {
+		case "float64":
+			s, from := t.expr(c.Args[0], "")
+			switch from {
+			case "u64":
+				return "(Go.FX.ofU64 " + s + ")", "f64"
+			case "i64":
+				return "(Go.FX.ofI64 " + s + ")", "f64"
+			}
+			panic("translate: float64 of " + string(from))
+		case "math.Log1p":
+			a, _ := t.expr(c.Args[0], "f64")
+			return fmt.Sprintf("(Go.FX.call1 %q %s)", fn, a), "f64"
+		case "math.Max":
+			a, _ := t.expr(c.Args[0], "f64")
+			b, _ := t.expr(c.Args[1], "f64")
+			return fmt.Sprintf("(Go.FX.call2 %q %s %s)", fn, a, b), "f64"
+		case "bits.Len64":
+			a, ty := t.expr(c.Args[0], "u64")
+			if ty != "u64" {
+				panic("translate: bits.Len64 of a non-uint64")
+			}
+			return "(Go.len64 " + a + ")", "i64"
+		}
+	}
 	switch fn {
 	case "uint64", "uint", "uint32", "int32", "int64", "int":
 		to := goTy(c.Fun)
@@ -272,6 +345,15 @@ func (t *trans) call(c *ast.CallExpr, want gty) (string, gty) {
 			return lit(v, to), to
 		}
 		s, from := t.expr(c.Args[0], to)
+		if from == "f64" && fxMode {
+			switch to {
+			case "u64":
+				return "(fe.toU64 " + s + ")", to
+			case "i64":
+				return "(fe.toI64 " + s + ")", to
+			}
+			panic("translate: conversion of a float to " + string(to))
+		}
 		return t.convert(s, from, to), to
 	case "math.Float64bits", "math.Float32bits":
 		s, ty := t.expr(c.Args[0], "")
@@ -832,9 +914,9 @@ func emitTranslated(p *pkgInfo) (out string, err error) {
 			err = fmt.Errorf("%v", r)
 		}
 	}()
-	t := &trans{p: p, ren: map[string]string{}, sigs: map[string]sig{}}
+	t := &trans{p: p, ren: map[string]string{}, sigs: map[string]sig{}, psigs: map[string]psig{}}
 	var b strings.Builder
-	b.WriteString("/- GENERATED by extract (translate.go) from /repo's current source: do not edit.\n   Go functions of the subset the translator understands, as Lean definitions; shifts and rotations\n   have Go's semantics (RapidModel/GoSem.lean). -/\nimport RapidModel.GoSem\n\nnamespace Rapid.Translated\n\n")
+	b.WriteString("/- GENERATED by extract (translate.go) from /repo's current source: do not edit.\n   Go functions of the subset the translator understands, as Lean definitions; shifts and rotations\n   have Go's semantics (RapidModel/GoSem.lean). -/\nimport RapidModel.GoProg\n\nset_option linter.unusedVariables false\n\nnamespace Rapid.Translated\n\n")
 	b.WriteString(t.function("bitmask64", "bitmask64"))
 	b.WriteString("\n")
 	b.WriteString(t.function("ufloatFracBits", "ufloatFracBits"))
@@ -892,7 +974,12 @@ func emitTranslated(p *pkgInfo) (out string, err error) {
 	b.WriteString(t.exprFn("checkTBPassCond", "pass condition of checkTB", passCond, et, "bool"))
 	b.WriteString("\n")
 	b.WriteString(t.exprFn("findBugSeedStep", "seed of the next test case in findBug", seedRhs, et, "u64"))
-	b.WriteString("\nend Rapid.Translated\n")
+	b.WriteString("\n/-! ### functions on the bit stream, in continuation-passing style over `Prog` -/\n\n")
+	for _, fn := range []string{"genFloat01", "genGeom", "genUintNNoReject", "genUintNUnbiased", "genUintNBiased", "genUintN", "genUintRange", "flipBiasedCoin", "genIntRange", "genIndex"} {
+		b.WriteString(t.progFunction(fn))
+		b.WriteString("\n")
+	}
+	b.WriteString("end Rapid.Translated\n")
 	return b.String(), nil
 }
 
